@@ -93,6 +93,11 @@ for _i, _n in enumerate(_ATTR_NAMES):
 ATTRIBUTE_PROBES += [{"kids": [], "dicts": [], "kw": [[_n, _ATTR_VALUES[(_i + 1) % 4]] for _i, _n in enumerate(_ATTR_NAMES[k_:k_ + 6])]} for k_ in range(0, len(_ATTR_NAMES), 6)]
 
 
+# sizes ordinary calls never reach
+LARGE_PROBE = {"kids": [_T("t%d" % k) if k % 2 else gen.TAG("i", _T("k"), ws=False) for k in range(1600)],
+               "dicts": [[["data-d%d" % k, S_("v%d" % k)] for k in range(90)]], "kw": [["data_k%d" % k, S_("w%d" % k)] for k in range(120)]}
+
+
 def rand_args(rng):
     kids = [rand_arg(rng, rng.choice([0, 1, 2])) if rng.random() < 0.7 else {"k": "text", "s": gen.text_of(rng)} for _ in range(rng.randint(0, 4))]
     dicts = [[[rng.choice(RAW_NAMES), rand_value(rng)] for _ in range(rng.randint(0, 3))] for _ in range(rng.randint(0, 2))]
@@ -200,6 +205,9 @@ def check_function(ctx, modname, name, f, inline, n_random):
                                                 ["alt", S_("a")], ["title", S_("t")], ["style", S_("k:v;")], ["width", {"t": "num", "v": 3}], ["height", {"t": "num", "v": 4}]]}]
     probes += STRUCTURE_PROBES + ATTRIBUTE_PROBES
     n_fixed = len(probes)
+    import zlib as _zlib
+    if _zlib.crc32(name.encode()) % 9 == 0:
+        probes = probes + [LARGE_PROBE]   # (one function in nine gets the very large call too; with a random _add_ws form)
     for k_, args in enumerate(probes + [rand_args(rng) for _ in range(n_random)]):
       # the whitespace flag left out, and given explicitly either way (every fixed probe all three ways)
       for ws_mode in ((None, True, False) if k_ < n_fixed else (rng.choice([None, None, True, False]),)):
